@@ -75,7 +75,8 @@ type c08Case struct {
 
 var c08StartTwo = []Cmd{
 	{Command: "first --keep", Description: "first kept entry", Keywords: []string{"keep", "zqxfirst"}, Niche: "old", Platform: []string{"linux"}},
-	{Command: "second | keep", Description: "second kept entry", Keywords: []string{"keep"}, Pipeline: true},
+	// tags cannot be set by `wtf save`; an entry edited by hand or copied from the shipped database has them
+	{Command: "second | keep", Description: "second kept entry", Keywords: []string{"keep"}, Tags: []string{"zqxtag", "oncall"}, Pipeline: true},
 }
 
 func sameStrs(a, b []string) bool {
@@ -231,6 +232,16 @@ func c08InProcess(dir string, cs c08Case) (*lib.Violation, string) {
 					return &lib.Violation{Key: "not-searchable", What: fmt.Sprintf("the saved entry %s is not found by a search for its word %q", descEntry(&last), word), Case: cs}, obs
 				}
 				obs += "found;"
+				// ... and by the pipeline sub-command's search (`wtf pipeline <word>`, which `save-pipeline` recommends)
+				found = false
+				for _, r := range db.SearchWithPipelineOptions(word, Opts{Limit: 50, PipelineOnly: last.Pipeline}) {
+					if r.Command.Command == last.Command && r.Command.Description == last.Description {
+						found = true
+					}
+				}
+				if !found {
+					return &lib.Violation{Key: "not-searchable:pipeline-search", What: fmt.Sprintf("the saved entry %s is not found by the pipeline search (SearchWithPipelineOptions, pipeline-only=%v) for its word %q", descEntry(&last), last.Pipeline, word), Case: cs}, obs
+				}
 			}
 		}
 	}
@@ -559,7 +570,7 @@ cli:
 func init() {
 	lib.Register(&lib.Check{
 		ID: "C08", Level: "model_checking",
-		Rule:      "(in-process, the real saveToPersonalDatabase through an overlay accessor) every string made of 1 atom or of 2 atoms (all 3,844 ordered pairs; thorough: + all 4,096 triples over 16 hostile atoms) of a 62-atom YAML-hostile alphabet (leading '-', ': ', '#', quotes, '{{...}}', null/true/numbers/dates, multi-line shapes, tabs, leading/trailing space, NUL, BEL, ESC, invalid UTF-8, NEL, LS, BOM, block-scalar and tag indicators, anchors, flow indicators, merge key ...) in each of the 5 string fields x 3 starting notebooks (missing, empty file, 2 entries); + every save history of length <=3 over a 10-entry alphabet (incl. replace-by-command, replacing a starting entry, multi-line and YAML-looking entries, near-twin commands that differ only in blanks or letter case, and four entries of one category saved around entries of none) x 3 starts. After every save: if it reported success the re-loaded notebook equals the reference list field by field and in order, otherwise it equals the reference before the save; main + notebook load as main entries followed by notebook entries, also when the main file already lists the saved command string; a search for the saved entry's word returns it. (process) the real `wtf save` and `wtf save-pipeline` with every argv-safe atom as each argument/flag value after a first ordinary save, same oracle on the notebook file, plus `wtf <word>` printing the saved command. non-trivial = successful saves of non-plain strings",
+		Rule:      "(in-process, the real saveToPersonalDatabase through an overlay accessor) every string made of 1 atom or of 2 atoms (all 3,844 ordered pairs; thorough: + all 4,096 triples over 16 hostile atoms) of a 62-atom YAML-hostile alphabet (leading '-', ': ', '#', quotes, '{{...}}', null/true/numbers/dates, multi-line shapes, tabs, leading/trailing space, NUL, BEL, ESC, invalid UTF-8, NEL, LS, BOM, block-scalar and tag indicators, anchors, flow indicators, merge key ...) in each of the 5 string fields x 3 starting notebooks (missing, empty file, 2 entries one of which carries hand-written tags); + every save history of length <=3 over a 10-entry alphabet (incl. replace-by-command, replacing a starting entry, multi-line and YAML-looking entries, near-twin commands that differ only in blanks or letter case, and four entries of one category saved around entries of none) x 3 starts. After every save: if it reported success the re-loaded notebook equals the reference list field by field and in order, otherwise it equals the reference before the save; main + notebook load as main entries followed by notebook entries, also when the main file already lists the saved command string; a search for the saved entry's word returns it, through SearchUniversal and through the pipeline sub-command's search. (process) the real `wtf save` and `wtf save-pipeline` with every argv-safe atom as each argument/flag value after a first ordinary save, same oracle on the notebook file, plus `wtf <word>` printing the saved command. non-trivial = successful saves of non-plain strings",
 		Assume:    []string{"yaml.v3's decoder through LoadDatabase defines 're-loading the notebook'", "list-flag values that are empty or contain ',', '\"' or a line break are CSV syntax and are not used as single keywords / platforms", "the write path is reached through an overlay accessor (" + accMode + ")"},
 		QuickSecs: 200, ThorSecs: 1500,
 		Run: c08Run,
